@@ -212,6 +212,18 @@ fn run(ctx: &RunCtx) -> Report {
     }
     // variant: the writer announces the same info hash both ways at once (as a torrent client would)
     let both_announces = kind >= 2 && rng.chance(1, 5) && !large;
+    // variant (mutable items, 1 run in 4): the key already holds an earlier version - same seq with
+    // another value (a storing node accepts that and keeps the newer write), or a lower seq
+    if let Stored::Mutable { key_seed, salt, seq, .. } = &stored {
+        if rng.chance(1, 4) && !large {
+            let old_seq = if rng.chance(1, 2) || *seq == 0 { *seq } else { *seq - 1 };
+            let old = Stored::Mutable { key_seed: *key_seed, salt: salt.clone(), seq: old_seq, value: b"an earlier version".to_vec() };
+            let o = put(&sim, writer, &old);
+            sim.run_ops(&[o], sim.now() + 120 * SEC);
+            sim.run_for(rng.range(0, 3) * SEC);
+            report.probe(if old_seq == *seq { "rewrite_same_seq_other_value" } else { "rewrite_higher_seq" }, 1);
+        }
+    }
     let t_put = sim.now();
     let op_put = put(&sim, writer, &stored);
     let other = if kind == 2 { Stored::Signed { info_hash, key_seed } } else { Stored::Peer { info_hash, port: Some(4321) } };
